@@ -60,6 +60,15 @@ var apiRoutes = map[string]string{
 	"r0":          "- host: play.example.test\n  backend: backend.example.test:25565\n  cachePingTTL: 30s\n",
 	"r1":          "- host: play.example.test\n  backend: backend-1.example.test:25565\n  cachePingTTL: 1m0s\n",
 	"r2":          "- host: play.example.test\n  backend: backend-2.example.test:25565\n- host: '*.example.test'\n  backend: [10.0.0.2:25565, 10.0.0.3:25565]\n  strategy: round-robin\n",
+	// r0 with ONE more member of Route set (round-4 seed C35-4: a route comparison that skips a member makes the
+	// proxy keep its old routes while the gate publishes the new ones) - every member of liteconfig.Route that
+	// r0/r1/r2 do not already vary, and the deprecated realIP against its replacement
+	"r0fbA":     "- host: play.example.test\n  backend: backend.example.test:25565\n  cachePingTTL: 30s\n  fallback:\n    version:\n      name: old\n      protocol: 1\n",
+	"r0fbB":     "- host: play.example.test\n  backend: backend.example.test:25565\n  cachePingTTL: 30s\n  fallback:\n    version:\n      name: new\n      protocol: 1\n",
+	"r0realip":  "- host: play.example.test\n  backend: backend.example.test:25565\n  cachePingTTL: 30s\n  realIP: true\n",
+	"r0shield":  "- host: play.example.test\n  backend: backend.example.test:25565\n  cachePingTTL: 30s\n  tcpShieldRealIP: true\n",
+	"r0pp":      "- host: play.example.test\n  backend: backend.example.test:25565\n  cachePingTTL: 30s\n  proxyProtocol: true\n",
+	"r0mvh":     "- host: play.example.test\n  backend: backend.example.test:25565\n  cachePingTTL: 30s\n  modifyVirtualHost: true\n",
 	"noBackend":   "- host: play.example.test\n",
 	"badStrategy": "- host: play.example.test\n  backend: backend-1.example.test:25565\n  strategy: not-a-strategy\n",
 }
@@ -78,6 +87,12 @@ var apiKinds = map[string]apiFact{
 	"r0":          {routes: "r0", valid: true, routeOnly: true},
 	"r1":          {routes: "r1", valid: true, routeOnly: true},
 	"r2":          {routes: "r2", valid: true, routeOnly: true},
+	"r0fbA":       {routes: "r0fbA", valid: true, routeOnly: true},
+	"r0fbB":       {routes: "r0fbB", valid: true, routeOnly: true},
+	"r0realip":    {routes: "r0realip", valid: true, routeOnly: true},
+	"r0shield":    {routes: "r0shield", valid: true, routeOnly: true},
+	"r0pp":        {routes: "r0pp", valid: true, routeOnly: true},
+	"r0mvh":       {routes: "r0mvh", valid: true, routeOnly: true},
 	"noBackend":   {routes: "noBackend", routeOnly: true},
 	"badStrategy": {routes: "badStrategy", routeOnly: true},
 	"bind":        {bind: true, valid: true},
@@ -85,6 +100,9 @@ var apiKinds = map[string]apiFact{
 	"unknown+r1":  {routes: "r1", unknown: true},
 	"garbage":     {garbage: true},
 }
+
+// apiFieldKinds are applied through the handler (payload and patch) with the current version only
+var apiFieldKinds = []string{"r0fbA", "r0fbB", "r0realip", "r0shield", "r0pp", "r0mvh"}
 
 var apiKindOrder = []string{"same", "r0", "r1", "r2", "noBackend", "badStrategy", "bind", "bind+r1", "unknown+r1", "garbage"}
 
@@ -124,6 +142,9 @@ func apiOps(withFile bool) []aop {
 		// be a no-op / be rejected anyway
 		for _, k := range []string{"r1", "r2", "same", "bind"} {
 			ops = append(ops, aop{Src: src, Kind: k, Ver: "stale"}, aop{Src: src, Kind: k, Ver: "empty"})
+		}
+		for _, k := range apiFieldKinds {
+			ops = append(ops, aop{Src: src, Kind: k, Ver: "current"})
 		}
 	}
 	ops = append(ops, aop{Src: "patch", Kind: "r1", Ver: "current", Persist: true}, aop{Src: "cfg", Kind: "bind+r1", Ver: "current", Persist: true},
